@@ -30,6 +30,12 @@ def StepIt.new (s : Sec) : Except StErr StepIt :=
 
 abbrev Item := Except StErr (Pair × Rec)
 
+/-- `if let Some(d) = gap { pointer.move_forward(d) }` -/
+def optMove (c : Coord) (d : Option Nat) : Option Coord :=
+  match d with
+  | none => some c
+  | some k => c.moveForward k
+
 /-- the body of one step (`step()` in the repaired code) -/
 def StepIt.step (it : StepIt) : Option Item × StepIt :=
   match it.data with
@@ -55,11 +61,11 @@ def StepIt.step (it : StepIt) : Option Item × StepIt :=
           match Interval.tryNew qs qp1 with
           | .error _ => (some (.error .interval), it)
           | .ok qryIv =>
-            match (match c.dq with | none => some it.qp | some dq => it.qp.moveForward dq) with
+            match optMove it.qp c.dq with
             | none => (some (.error (.oob 2)), it)
             | some qp2 =>
               let it := { it with qp := qp2 }
-              match (match c.dt with | none => some it.rp | some dt => it.rp.moveForward dt) with
+              match optMove it.rp c.dt with
               | none => (some (.error (.oob 3)), it)
               | some rp2 =>
                 let it := { it with rp := rp2 }
